@@ -2,6 +2,7 @@ SPECIFICATION Spec
 CONSTANTS
   Line = 2
   NCaches = 2
+  TrackWrites = TRUE
   MaxInFlight = 2
   MCReqs <- MCReqSet
   MaxReq = 3
